@@ -14,7 +14,7 @@ from .common import metric_registry
 from .fsrun import FS, FileH, FSInterp, PathV
 
 INFO = {
-    "explanation": "(R18.6) the aggregator passes the subject's prediction and reference to the evaluator uncrossed; Writer and reader are interpreted over the same abstract file: an aggregator session (groups 'g1' and 'left-lung', three metrics, optional computation time) writes subjects whose cells are distinct finite floats (incl. exponent notation and integers), NaN, +inf, -inf, None and uncomputable (missing) metrics; Panoptica_Statistic.from_file is then interpreted on the resulting rows. (R18.1/R18.2) subjects, group names (with '-') and metric names are recovered and every (subject, group, metric) cell comes back under its own key - no column shift when a metric is missing; (R18.4) finite values come back as the float written, NaN / +inf / -inf / empty come back as missing; (R18.3) every csv reader/writer site and the open() feeding it agree on delimiter, line terminator, newline and encoding, and the output file is only read through csv.reader; (R18.5) the metric vocabulary (registry names, global_bin_<metric>, computation_time) does not contain the group/metric separator. Further delegated: R17.2 (rows are positional: only the identical header is continued), R15.7. Round 6: R15.6-through-callees delegated (the group/metric lists that fix the row layout are not handed to functions that modify them). Round 8: (R18.7) a constructor option of the aggregator that takes a list of names and defaults to None is run with selections of the session's result keys in another order than the evaluator's; whatever the option does to the set of columns, every column the loader hands back must hold the values written under its own (group, metric).",
+    "explanation": "(R18.6) the aggregator passes the subject's prediction and reference to the evaluator uncrossed; Writer and reader are interpreted over the same abstract file: an aggregator session (groups 'g1' and 'left-lung', three metrics, optional computation time) writes subjects whose cells are distinct finite floats (incl. exponent notation and integers), NaN, +inf, -inf, None and uncomputable (missing) metrics; Panoptica_Statistic.from_file is then interpreted on the resulting rows. (R18.1/R18.2) subjects, group names (with '-') and metric names are recovered and every (subject, group, metric) cell comes back under its own key - no column shift when a metric is missing; (R18.4) finite values come back as the float written, NaN / +inf / -inf / empty come back as missing; (R18.3) every csv reader/writer site and the open() feeding it agree on delimiter, line terminator, newline and encoding, and the output file is only read through csv.reader; (R18.5) the metric vocabulary (registry names, global_bin_<metric>, computation_time) does not contain the group/metric separator. Further delegated: R17.2 (rows are positional: only the identical header is continued), R15.7. Round 6: R15.6-through-callees delegated (the group/metric lists that fix the row layout are not handed to functions that modify them). Round 8: (R18.7) a constructor option of the aggregator that takes a list of names and defaults to None is run with selections of the session's result keys in another order than the evaluator's; whatever the option does to the set of columns, every column the loader hands back must hold the values written under its own (group, metric). Round 9: (R18.4, foreign spellings) cells that float() reads as NaN or infinite in spellings the aggregator does not write (NaN, Infinity, INF, +inf, 1e999, ' nan') come back as missing; the round trip has a subject whose name starts with a blank; dialect objects are expanded.",
     "trusted_base": ["csv module writes and reads back every cell (quoting) with identical dialect options", "repr(float) round-trips through float()"],
     "assumptions": ["group names are arbitrary printable text; metric names come from the library's registry"],
     "not_decided": ["bit-identity of repr/float (language guarantee, assumed)"],
